@@ -694,6 +694,85 @@ example : (step readmeW (.relabel "n0" (.str "first"))).2 = .ok ∧
     (step readmeW (.relabel "n0" .nonStr)).2 = .typeErr ∧ (step readmeW (.relabel "n0" (.attr "inputs"))).2 = .refused ∧
     (step readmeW (.relabel "zz" (.str "q"))).2 = .refused ∧ (step readmeW (.relabel "n0" (.str "n0"))).2 = .ok := by decide
 
+/-! ## Leaving by parent assignment, in-place load, names that are attributes of the panel class -/
+
+/-- **Leaving is leaving, by whatever route** (`wf.remove_child(child)`, `child.parent = None`,
+`child.parent = other_workflow` all end in `Composite.remove_child`): the child is gone from
+`children`, none of its channels has a connection left — so the former siblings' channels it fed
+or was fed by are open again — and the maps are untouched; the panels are the set expression over
+the remaining children. -/
+theorem C15_leave (w : W) (l : String) (c : Child) (hc : w.children.find? (fun d => d.label == l) = some c) :
+    let w' := (step w (.remove l)).1
+    (step w (.remove l)).2 = .ok ∧
+    w'.children = w.children.filter (fun d => !(d.label == l)) ∧
+    w'.g = Conn.disconnectChans w.g c.ids ∧ w'.imap = w.imap ∧ w'.omap = w.omap ∧
+    ∀ sd p, w'.panel sd = some p → p = w'.spec sd := by
+  intro w'
+  have hw' : w' = (removeChild w l).1 := rfl
+  simp only [step, removeChild, hc] at hw' ⊢
+  refine ⟨trivial, by rw [hw'], by rw [hw'], by rw [hw'], by rw [hw'], fun sd p hp => C15_io_spec w' sd p hp⟩
+
+/-- **An in-place `child.load()`** leaves the child where it is, under its label, with the loaded
+channels in place of the old ones; maps untouched; the panels are the set expression over the
+children with the loaded channels. -/
+theorem C15_load_panel (w : W) (l : String) (new : Child) (h : (step w (.load l new)).2 = .ok) :
+    let w' := (step w (.load l new)).1
+    w'.children = w.children.map (fun d => if d.label == l then { new with label := l } else d) ∧
+    w'.imap = w.imap ∧ w'.omap = w.omap ∧ ∀ sd p, w'.panel sd = some p → p = w'.spec sd := by
+  intro w'
+  have hm := loadChild_maps false w l new
+  refine ⟨?_, hm.1, hm.2, fun sd p hp => C15_io_spec w' sd p hp⟩
+  have hw' : w' = (loadChild false w l new).1 := rfl
+  simp only [step] at h
+  unfold loadChild at h hw'
+  cases hf : w.children.find? (fun d => d.label == l) with
+  | none => simp [hf] at h
+  | some old => simp only [hf] at hw'; rw [hw']
+
+/-- a node with a same-named input and output (`x = f(x); return x`) between two term nodes:
+`n0.o → s.x(in)`, `s.x(out) → n1.a` -/
+def sameW : W := run (empty (fun _ _ => true) (fun _ _ => true))
+  [.add c0, .add { label := "s", ins := [("x", 30), ("by", 31)], outs := [("x", 32)] }, .add c1,
+   .connect 30 3, .connect 4 32]
+def sameNew : Child := { label := "s", ins := [("x", 40), ("by", 41)], outs := [("x", 42)] }
+
+/-- matching the loaded channels by (class, label) keeps the wiring: the connected input stays
+out of the workflow inputs, the upstream output stays hidden … -/
+example : ((loadChild false sameW "s" sameNew).1.panel .inputs).map (·.map Prod.fst) =
+      (sameW.panel .inputs).map (·.map Prod.fst) ∧
+    (loadChild false sameW "s" sameNew).1.connected 40 = true ∧ (loadChild false sameW "s" sameNew).1.connected 42 = true ∧
+    (loadChild false sameW "s" sameNew).1.g.conns 3 = [40] ∧ (loadChild false sameW "s" sameNew).1.g.conns 4 = [42] ∧
+    sameW.panel .inputs = some [("n0__a", 0), ("n0__b", 1), ("n0__c", 2), ("s__by", 31), ("n1__b", 5), ("n1__c", 6)] := by
+  decide
+
+/-- … matching by label only does not: the output `x` shadows the input `x`, the connected input
+is dropped by the hand-over and shows up in the workflow inputs -/
+theorem C15_load_by_label_witness :
+    ∃ (w : W) (l : String) (new : Child),
+      ((loadChild true w l new).1.panel .inputs).map (·.map Prod.fst) ≠
+      ((loadChild false w l new).1.panel .inputs).map (·.map Prod.fst) :=
+  ⟨sameW, "s", sameNew, by decide⟩
+
+example : ((loadChild true sameW "s" sameNew).1.panel .inputs).map (·.map Prod.fst) =
+    some ["n0__a", "n0__b", "n0__c", "s__x", "s__by", "n1__b", "n1__c"] := by decide
+
+/-- **Access by item gives the child channel itself, whatever the key is called** — also a
+mapped name that happens to be an attribute or method of the panel class (`items`, `labels`,
+`connected`, `fetch`, `ready` …): `panel[key]` looks in the panel's channels only. -/
+theorem C15_item_access (w : W) (s : Side) (p : Panel) (h : w.panel s = some p) (k : String) (c : Nat)
+    (hk : (k, c) ∈ p) : panelGet p k = some c := by
+  have hnd : (p.map Prod.fst).Nodup := by
+    have := (buildIO_some_iff _ _ _ p).mp h
+    rw [this.2]; exact this.1
+  exact lookup_of_mem_nodup p k c hnd hk
+
+/-- going through `getattr(panel, key)` instead is not the same: the class attribute shadows the channel -/
+theorem C15_item_via_getattr_witness :
+    ∃ (w : W) (p : Panel) (k : String) (c : Nat), w.panel .inputs = some p ∧ (k, c) ∈ p ∧
+      itemViaGetattr ["items", "labels", "connected", "connections", "fetch", "ready"] p k ≠ some c := by
+  refine ⟨run (empty (fun _ _ => true) (fun _ _ => true)) [.add c0, .setMap .inputs (some [("n0__a", some "items")])],
+    [("items", 0), ("n0__b", 1), ("n0__c", 2)], "items", 0, by decide, by decide, by decide⟩
+
 /-! ## Map objects with identity: who is affected by an edit
 
 `Model/MapHeap.lean`: map objects live in a heap, the workflow under study (`wfIn`, `wfOut`), a
@@ -931,3 +1010,8 @@ end PwVerif.C15
 #print axioms PwVerif.C15.C15_relabel_pop_first_witness
 #print axioms PwVerif.C15.C15_return_keys
 #print axioms PwVerif.C15.C15_return_skip_nd_witness
+#print axioms PwVerif.C15.C15_leave
+#print axioms PwVerif.C15.C15_load_panel
+#print axioms PwVerif.C15.C15_load_by_label_witness
+#print axioms PwVerif.C15.C15_item_access
+#print axioms PwVerif.C15.C15_item_via_getattr_witness
